@@ -124,25 +124,36 @@ Definition is_deferred (o : op) : bool :=
 
 (** After deferred loads the view is meaningful only once something merged:
     the script must then end with [merge()] or [load_shell_env()]. *)
+(** Re-pointing the project location / runtime path after that level was loaded
+    empties the level without merging: like a deferred load. *)
+Fixpoint repoints (lp lr : bool) (ops : list op) : bool :=
+  match ops with
+  | [] => false
+  | o :: rest =>
+      match undefer o with
+      | LoadProject => repoints true lr rest
+      | LoadRuntime => repoints lp true rest
+      | SetProjectLocation _ => lp || repoints false lr rest
+      | SetRuntimePath _ => lr || repoints lp false rest
+      | _ => repoints lp lr rest
+      end
+  end.
+
 Definition settled (ops : list op) : bool :=
-  negb (existsb is_deferred ops) ||
+  negb (existsb is_deferred ops || repoints false false ops) ||
   match last ops Merge with
   | Merge | LoadShellEnv _ => true
   | _ => false
   end.
 
-(** Scripts C03 talks about: locations first, then level loads in any order,
-    then (optionally) the environment, once. *)
-Fixpoint loads_then_env (ops : list op) : bool :=
-  match ops with
-  | [] => true
-  | [o] => is_load_op o || is_env_op o
-  | o :: rest => is_load_op o && loads_then_env rest
-  end.
+(** Scripts C03 talks about: level loads and (re-)pointings of the project
+    location / runtime path in any order, then (optionally) the environment,
+    once. *)
 Fixpoint wf_order (ops : list op) : bool :=
   match ops with
-  | o :: rest => if is_set_op o then wf_order rest else loads_then_env ops
   | [] => true
+  | [o] => is_load_op o || is_set_op o || is_env_op o
+  | o :: rest => (is_load_op o || is_set_op o) && wf_order rest
   end.
 Definition wf_script (ops : list op) : bool := wf_order ops && settled ops.
 
@@ -168,6 +179,15 @@ Definition located (fs : fsys) (loaded : bool) (loc : option string)
 
 Definition has_op (f : op -> bool) (ops : list op) : bool := existsb f ops.
 
+(** The calls after the last one satisfying [f] (all of them if there is none):
+    re-pointing a location forgets what was loaded from the old one. *)
+Fixpoint after_last (f : op -> bool) (ops : list op) : list op :=
+  match ops with
+  | [] => []
+  | o :: rest => if existsb f rest then after_last f rest
+                 else if f o then rest else o :: rest
+  end.
+
 Definition supplied_of (fs : fsys) (i : init_args) (ops0 : list op) : supplied :=
   let ops := map undefer ops0 in
   let d := last_of (fun o => match o with LoadDefaults t => Some t | _ => None end) ops (i_defaults i) in
@@ -177,9 +197,12 @@ Definition supplied_of (fs : fsys) (i : init_args) (ops0 : list op) : supplied :
   let rtp := last_of (fun o => match o with SetRuntimePath p => Some p | _ => None end) ops (i_rt i) in
   let sy := located fs (negb (i_lazy i) || has_op (fun o => match o with LoadSystem => true | _ => false end) ops) (Some "sys") in
   let us := located fs (negb (i_lazy i) || has_op (fun o => match o with LoadUser => true | _ => false end) ops) (Some "usr") in
-  let pr := located fs (has_op (fun o => match o with LoadProject => true | _ => false end) ops) ploc in
+  let pr := located fs (has_op (fun o => match o with LoadProject => true | _ => false end)
+                               (after_last (fun o => match o with SetProjectLocation _ => true | _ => false end) ops))
+                       ploc in
   let rt :=
-    match has_op (fun o => match o with LoadRuntime => true | _ => false end) ops, rtp with
+    match has_op (fun o => match o with LoadRuntime => true | _ => false end)
+                 (after_last (fun o => match o with SetRuntimePath _ => true | _ => false end) ops), rtp with
     | true, Some (stem, sfx) =>
         match fs_get fs stem sfx with
         | Some (FData t) => (norm t, false)
